@@ -30,7 +30,7 @@ MANIFEST = {
     "note": "Trusted: vlib/refgrammar.py, vlib/validator.py, own periodic table. Key order inside an attribute block and an empty third section are not constrained (the property does not state them).",
     "technique": "property-based testing with an independent grammar+layout validator (Hypothesis, 16 shards)",
 }
-FUZZ = {"procs": 12, "runs": 15000, "timeout": 3000}
+FUZZ = {"procs": 12, "runs": 15000, "timeout": 1500}
 ASSUMPTIONS = ["the validator checks necessary layout conditions; full isomorphism is C03's job"]
 
 
